@@ -20,13 +20,13 @@ for i in range(1, 21):
     na("C%02d" % i, PENDING)
 
 claim("C20", "translation_validation",
-      "Complete structural comparison of the two shipped artefacts: every rule, every expression node (kind, order, labels, references, literals, character classes, predicates, repetition) and every action code block (as Go ASTs modulo formatting) of grammar.peg against the `g` table and the on*/callon* functions of grammar.go. The property is a relation between two source files, so static comparison decides it entirely.",
+      "Complete structural comparison of the two shipped artefacts: every rule, every expression node (kind, order, labels, references, literals, character classes, predicates, repetition) and every action code block (as Go ASTs modulo formatting) of grammar.peg against the `g` table and the on*/callon* functions of grammar.go. The property is a relation between two source files, so static comparison decides it entirely; in addition the table is immutable after package initialisation, and the engine rules of C15 (combinator contracts, entry at the first rule, recover discipline, no budget of the engine's own making) are imported because the statement concludes to the parser's behaviour.",
       "§4 C20", "static translation validation (own PEG front-end vs type-checked table literal; AST comparison of action bodies)")
 claim("C15", "other",
-      "Structural necessary conditions: table == grammar (C20), the table is a well-formed PEG (defined/unique/reachable rules, no left recursion, no nullable repetition, labels in scope), entry alternatives anchored at EOF and entry/UTF-8/recover options unused, every table node type dispatched, every action type assertion satisfied by inferred result types, keywords separated from identifiers. Does NOT decide that pigeon's engine implements PEG semantics nor accept/reject against an independent recogniser.",
+      "Structural necessary conditions: table == grammar (C20), the table is a well-formed PEG (defined/unique/reachable rules, no left recursion, no nullable repetition, labels in scope), entry alternatives anchored at EOF and entry/UTF-8/recover options unused, every table node type dispatched, every action type assertion satisfied by inferred result types, keywords separated from identifiers. The hand-written engine that interprets the table is held to PEG contracts decided on the paths of each combinator (sequence, ordered choice, and/not predicates, repetitions, option, label, action, literal / class / any matchers, read/restore/sliceFrom, the value stack), to its error-recording and recover discipline and to its budget census; value actions fail only with a decoding library's own error; non-string literal actions return the matched text. Does NOT decide accept/reject against an independent recogniser, nor WHICH language the grammar defines (a character class narrowed consistently in both artefacts is out of reach).",
       "§4 C15", "grammar well-formedness analyses + result-type inference over the rule table; imports C20's comparison")
 claim("C16", "other",
-      "Decides the grammar facts the statement names: operator exposure per operand position (not > and > or, right grouping, brackets reset), double-negation fold in the not action, string-literal action == strconv.Unquote(whole match), no earlier value alternative can start with a quote (choice shadowing), keyword boundaries, layout rule is whitespace only. Does NOT decide tree equality over all renderings (no printer exists in the repository).",
+      "Decides the grammar facts the statement names: operator exposure per operand position (not > and > or, right grouping, brackets reset), double-negation fold in the not action, string-literal action == strconv.Unquote(whole match), no earlier value alternative can start with a quote (choice shadowing), keyword boundaries, layout rule is whitespace only and optional on the inside of every bracket pair, every alternative of the entry rule runs to the end of input, a quoted literal may be empty. Does NOT decide tree equality over all renderings (no printer exists in the repository).",
       "§4 C16", "operator-exposure and FIRST/FOLLOW analyses on the rule table + typed-AST checks of three actions")
 
 claim("C03", "other",
@@ -40,27 +40,27 @@ claim("C05", "other",
       "§4 C05", "path-sensitive symbolic execution of the lookup + constant-table extraction + field-read census")
 
 claim("C09", "other",
-      "(i) inductive return discipline: every return of every (bool, error) function reachable from Evaluate has a nil error, a false boolean or forwards another such function's pair (loop-carried state widened). (ii) every panic-capable instruction in module code reachable from Evaluate (reflect calls with kind/validity/type preconditions, single-value assertions, index/slice, pointer dereferences, dynamic calls, foreign pointer receivers, explicit panics, divisions, map stores) is enumerated and discharged on every explored path by reflect-kind facts; comparators by agreement of the kind->coercion and kind->comparator tables plus per-call-site proof that the kind given to the table is the kind of the value compared; literal dereferences by the grammar's operator/value pairing. Does not cover panics inside dependencies/hooks or stack exhaustion; loops are explored for two iterations for panic sites.",
+      "(i) inductive return discipline: every return of every (bool, error) function reachable from Evaluate has a nil error, a false boolean or forwards another such function's pair (loop-carried state widened). (ii) every panic-capable instruction in module code reachable from Evaluate (reflect calls with kind/validity/type preconditions, single-value assertions, index/slice, pointer dereferences, dynamic calls, foreign pointer receivers, explicit panics, divisions, map stores) is enumerated and discharged on every explored path by reflect-kind facts; comparators by agreement of the kind->coercion and kind->comparator tables plus per-call-site proof that the kind given to the table is the kind of the value compared; literal dereferences by the grammar's operator/value pairing. Does not cover panics inside dependencies/hooks or stack exhaustion; loops are explored for two iterations for panic sites. Also: a method called through an interface that is not the module's own (nor error, nor reflect.Type) and a method called on reflect.TypeOf(x) with x possibly the nil interface are panic sites.",
       "§4 C09", "path-sensitive abstract interpretation over reflect kind sets with panic-site obligations; sibling-table agreement; inductive (bool,error) discipline")
 claim("C10", "other",
-      "Input-independent structural argument: result-shape xor at every return of CreateEvaluator/CreateFilter; acceptance == grammar.Parse's error == p.errs.err() at every return (non-nil iff recorded; recorded on no-match); every input-dependent call of (*parser).parse after the recover guard whose flag has no other writer; post-parse assertion type-safe by result-type inference of the entry rule; action assertions satisfied; no left recursion / nullable repetition (termination); creation-time code outside the parser and (imported from C09) the whole Evaluate path free of undischarged panic sites. Does not cover stack exhaustion or panics in caller-supplied options.",
+      "Input-independent structural argument: result-shape xor at every return of CreateEvaluator/CreateFilter; acceptance == grammar.Parse's error == p.errs.err() at every return (non-nil iff recorded; recorded on no-match); every input-dependent call of (*parser).parse after the recover guard whose flag has no other writer; post-parse assertion type-safe by result-type inference of the entry rule; action assertions satisfied; no left recursion / nullable repetition (termination); creation-time code outside the parser and (imported from C09) the whole Evaluate path free of undischarged panic sites. Does not cover stack exhaustion or panics in caller-supplied options. Also: nothing that may be nil is put on the parser's error list; the recovering function records the panic before it reads the list; a return of parse before the start rule is tried carries a recorded error; value actions fail only with a decoding library's own error.",
       "§4 C10", "result-shape path analysis + dominance w.r.t. deferred recover + field-write census + grammar result-type inference and termination conditions")
 claim("C17", "other",
-      "Abstract execution of Execute over element outcomes {true,false,error} with identity checks: nil filter first and identity; lists visited Index(0),Index(1),... until i<Len() is false; maps by MapIndex(MapKeys()[n]); evaluated value is Interface() of exactly the item appended/stored under its own key, only on (true,nil); result rooted at MakeSlice(input type | SliceOf(Elem) for arrays, 0, .)/MakeMap(input type); first error => (nil, err); non-containers incl. nil reach the error return without a panicking reflect call; Filter constructed only by CreateFilter. Does not decide that Evaluate itself is right.",
+      "Abstract execution of Execute over element outcomes {true,false,error} with identity checks: nil filter first and identity; lists visited Index(0),Index(1),... until i<Len() is false; maps by MapIndex(MapKeys()[n]); evaluated value is Interface() of exactly the item appended/stored under its own key, only on (true,nil); result rooted at MakeSlice(input type | SliceOf(Elem) for arrays, 0, .)/MakeMap(input type); first error => (nil, err); non-containers incl. nil reach the error return without a panicking reflect call; Filter constructed only by CreateFilter. Does not decide that Evaluate itself is right. CreateFilter hands the evaluator's constructor the text it was given; no element taken out of the input is passed over unless the filtering ends there with an error.",
       "§4 C17", "abstract execution over element outcomes + def-use identity checks + KindAI panic sites on Execute")
 
 claim("C06", "other",
-      "Abstract execution of the collection evaluator over {any,all} x {body true/false/error} (three loop visits) + symbolic append-chain analysis: canonical ascending element loop; body evaluated exactly once per element against the root datum; first decisive element / first error ends the fold, exhaustion/emptiness/absence give all=true any=false; per-iteration fresh option slice = incoming options then new bindings; bindings follow the statement's table and exist iff the name is set; alias paths freshly made (collection path + base-10 index / key); non-lists and non-string-keyed maps rejected before evaluation; lookup scans innermost-first, re-reads the first path part after each alias expansion, expands into a new slice; WithLocalVariable only pushes. Does not decide equivalence with the unrolled expression on values.",
+      "Abstract execution of the collection evaluator over {any,all} x {body true/false/error} (three loop visits) + symbolic append-chain analysis: canonical ascending element loop; body evaluated exactly once per element against the root datum; first decisive element / first error ends the fold, exhaustion/emptiness/absence give all=true any=false; per-iteration fresh option slice = incoming options then new bindings; bindings follow the statement's table and exist iff the name is set; alias paths freshly made (collection path + base-10 index / key); non-lists and non-string-keyed maps rejected before evaluation; lookup scans innermost-first, re-reads the first path part after each alias expansion, expands into a new slice; WithLocalVariable only pushes. Does not decide equivalence with the unrolled expression on values. A fold that is not decided ends only through the element loop's own exit edge.",
       "§4 C06", "abstract execution over fold outcomes + symbolic append-chain/binding-table analysis + SSA loop-shape checks")
 claim("C14", "other",
-      "Every source of an unordered sequence (MapKeys, MapRange, range over map, maps.Keys/Values) in module functions reachable from the API is enumerated and must be in a safe shape: sorted in place right after being stored / sorted by a call dominating every element access (sort.Slice's less must capture only the sorted slice and compare the same function of elements i and j strictly); or consumed by a loop with no carried value, error-only early exits and commuting effects; or collected then sorted. Then no outcome depends on visiting order. Order dependence inside pointerstructure is trusted.",
+      "Every source of an unordered sequence (MapKeys, MapRange, range over map, maps.Keys/Values) in module functions reachable from the API is enumerated and must be in a safe shape: sorted in place right after being stored / sorted by a call dominating every element access (sort.Slice's less must capture only the sorted slice and compare the same function of elements i and j strictly); or consumed by a loop with no carried value, error-only early exits and commuting effects; or collected then sorted. Then no outcome depends on visiting order. Order dependence inside pointerstructure is trusted. The two sides of less stand element i against element j (never i against i).",
       "§4 C14", "unordered-iteration census with per-source shape decision (dominance, closure capture analysis, in-loop return classification)")
 
 claim("C02", "other",
-      "For each of the 27 reflect kinds the two sibling tables are extracted and compared with a spec transcribed from the statement: scalars get the comparator/coercion of their group (Int/int64/ParseInt(raw,0,64), Uint/uint64/ParseUint(raw,0,64), Float/float64/ParseFloat(raw,64), float32(Float())/float32/ParseFloat(raw,32), Bool/ParseBool, String/raw text), non-scalars get none and equality against them is an error; each coercion is exactly one strconv call on the unmodified Raw text returning strconv's error unchanged; no integer<->float conversion on either side; a failed coercion makes the matcher return (false, error) (one named ErrSyntax skip for heterogeneous []interface{}); json.Number narrows int64 then float64 before the dispatch; matchers receive Indirect(ValueOf(v)). Does not decide strconv's own arithmetic.",
+      "For each of the 27 reflect kinds the two sibling tables are extracted and compared with a spec transcribed from the statement: scalars get the comparator/coercion of their group (Int/int64/ParseInt(raw,0,64), Uint/uint64/ParseUint(raw,0,64), Float/float64/ParseFloat(raw,64), float32(Float())/float32/ParseFloat(raw,32), Bool/ParseBool, String/raw text), non-scalars get none and equality against them is an error; each coercion is exactly one strconv call on the unmodified Raw text returning strconv's error unchanged; no integer<->float conversion on either side; a failed coercion makes the matcher return (false, error) (one named ErrSyntax skip for heterogeneous []interface{}); json.Number narrows int64 then float64 before the dispatch; matchers receive Indirect(ValueOf(v)). Does not decide strconv's own arithmetic. Also: the == matcher asks both tables for the kind of the very value it was given; pointer-stripping helpers strip every level.",
       "§4 C02", "sibling-table extraction by abstract execution per kind vs spec table; constant-argument/single-call checks of strconv wrappers; conversion census; coercion-error path analysis")
 claim("C11", "other",
-      "Non-interference proof from censuses: budget transported unmodified option->CreateEvaluator (iff non-zero)->grammar.MaxExpressions->parser.maxExprCnt, zero mapped to MaxUint64 after options are applied; the step counter has one writer (+1 in parseExpr's entry block) and is read only by that increment and one ordered comparison with the budget whose exceeded edge panics with errMaxExprCnt and which dominates the whole dispatch; all engine methods are entered only through parseExpr. Hence a limited run is a prefix of the unlimited run: exact threshold N, monotone, at most n+1 steps; panic recovered into the error (C10 rules imported).",
+      "Non-interference proof from censuses: budget transported unmodified option->CreateEvaluator (iff non-zero)->grammar.MaxExpressions->parser.maxExprCnt, zero mapped to MaxUint64 after options are applied; the step counter has one writer (+1 in parseExpr's entry block) and is read only by that increment and one ordered comparison with the budget whose exceeded edge panics with errMaxExprCnt and which dominates the whole dispatch; all engine methods are entered only through parseExpr. Hence a limited run is a prefix of the unlimited run: exact threshold N, monotone, at most n+1 steps; panic recovered into the error (C10 rules imported); every exported entry point of the grammar package forwards its options unchanged and returns the inner call's error unless a clean-up error tested non-nil replaces it; the error list renders every entry.",
       "§4 C11", "field read/write census + dominance + who-may-call census + symbolic transport check")
 
 claim("C18", "other",
@@ -74,7 +74,7 @@ claim("C08", "other",
       "§4 C08", "who-may-call census with positive control + single-gateway census + imported gateway-config/pipeline rules")
 
 claim("C12", "other",
-      "Ownership/effect census: every Store, map update, append, copy, in-place sort, reflect mutator, goroutine start and foreign call in the functions reachable from Evaluate/Execute and from the constructors is classified by the provenance of the memory it can write. Evaluation path: only local allocations, memory made in the same function, per-call option structs, nil-based/fresh-copy appends; creation path: the parser object of newParser, the tree under construction (actions + regexp memo before publication), locals; no package variable assigned outside init; foreign callees on a documented read-only/concurrency-safe list; tree never modified after creation. With no goroutines and no synchronisation in the library this is race freedom; sequential-equivalence follows from C13. Not decided: races inside dependencies/hooks, caller-side mutation of the datum.",
+      "Ownership/effect census: every Store, map update, append, copy, in-place sort, reflect mutator, goroutine start and foreign call in the functions reachable from Evaluate/Execute and from the constructors is classified by the provenance of the memory it can write. Evaluation path: only local allocations, memory made in the same function, per-call option structs, nil-based/fresh-copy appends; creation path: the parser object of newParser, the tree under construction (actions + regexp memo before publication), locals; no package variable assigned outside init; foreign callees on a documented read-only/concurrency-safe list; tree never modified after creation. With no goroutines and no synchronisation in the library this is race freedom; sequential-equivalence follows from C13. Methods of read-only dependencies that change their receiver ((*Regexp).Longest, (*Pointer).Set, Builder writes) and functions that fill in an argument count as writes. Not decided: races inside dependencies/hooks, caller-side mutation of the datum.",
       "§4 C12", "ownership/effect analysis over the VTA call graph (provenance classification of every write site)")
 claim("C13", "other",
       "The effect census of C12 on the evaluation path (datum, evaluator, filter and tree are only read; reflect mutators only on MakeSlice/MakeMap/Append-rooted values), tree-integrity census, no writer of Evaluator/Filter fields outside the constructors, Filter returns a fresh container (C17 shape imported), Expression() returns the field whose only writer stores CreateEvaluator's expression parameter itself (also the string parsed). Hence no carried state and the next call equals a fresh evaluator's. Not decided: mutation by a user hook.",
